@@ -206,6 +206,10 @@ class Env:
                     else:
                         cm = stream_events(sigs, flt, max_queue_size=cap)
                     async with cm as it:
+                        if c.sid % 2 == 1:
+                            # the list handed over belongs to the caller, who recycles it while the stream is open:
+                            # what the stream subscribed to (and unsubscribes from) was decided when it was entered
+                            sigs.clear()
                         c.state = "idle"
                         while True:
                             await c.cmd_ev.wait()
